@@ -50,7 +50,7 @@ def power_basis(coeffs):
     return out
 
 
-COORD_FAMILIES = ["int", "grid", "dyadic", "float", "big", "collinear", "coincident", "arch", "elevated", "retracted", "teardrop", "axischord", "tiny", "evenspaced", "offset"]
+COORD_FAMILIES = ["int", "grid", "dyadic", "float", "big", "collinear", "coincident", "arch", "elevated", "retracted", "teardrop", "axischord", "tiny", "evenspaced", "offset", "axishandles", "scurve"]
 
 
 def rand_coord(rng, fam):
@@ -125,6 +125,23 @@ def rand_seg_pts(rng, order, fam):
             pts = [(x0, y0)] + far + [(x0, y0 + gap)]
         else:
             pts = [(x0, y0)] + far + [(x0 + gap, y0)]
+    elif fam == "axishandles" and order == 4:
+        # both handles exactly horizontal or vertical (outlines drawn with nodes at the extremes), one or both of them long enough to
+        # overshoot: the curve still turns back in the interior
+        x0, y0 = pts[0]
+        x3, y3 = pts[3]
+        ext = max(abs(x3 - x0), abs(y3 - y0), 1.0)
+        a = rng.choice([-1, 1]) * ext * rng.choice([0.3, 0.6, 1.4, 2.5, 3.0])
+        b = rng.choice([-1, 1]) * ext * rng.choice([0.3, 0.6, 1.4, 2.5, 3.0])
+        p1 = (x0, y0 + a) if rng.random() < 0.5 else (x0 + a, y0)
+        p2 = (x3 - b, y3) if rng.random() < 0.5 else (x3, y3 - b)
+        pts = [pts[0], p1, p2, pts[3]]
+    elif fam == "scurve" and order == 4:
+        # point-symmetric about the middle of the chord (P1 - P0 = P3 - P2): an S whose mid-parameter point is the chord's midpoint
+        x0, y0 = pts[0]
+        x3, y3 = pts[3]
+        dx, dy = pts[1][0] - x0, pts[1][1] - y0
+        pts = [pts[0], (x0 + dx, y0 + dy), (x3 - dx, y3 - dy), pts[3]]
     elif fam == "axischord":
         # chord exactly horizontal or vertical, pointing either way
         x0, y0 = pts[0]
